@@ -4,6 +4,8 @@ package main
 // *types.Func objects, and creates verification units (functions and function literals).
 
 import (
+	"go/parser"
+	"regexp"
 	"sync"
 	"fmt"
 	"go/ast"
@@ -30,6 +32,8 @@ type Engine struct {
 	renameCache map[*types.Func]*renameMaps
 	renameMu    sync.Mutex
 	varBaseOnce sync.Once
+	fieldOnce   sync.Once
+	fieldNames  map[string]bool
 	varBase     bool
 	callNames map[string]bool // names declared as functions or used in call position anywhere in the repo packages
 	axiomsUsed sync.Map // axiom name -> true: included in at least one query of this run
@@ -449,7 +453,21 @@ func (e *Engine) staleCallee(us *UnitSpec) string {
 		if i := strings.LastIndex(name, "."); i >= 0 {
 			name = name[i+1:]
 		}
-		if name == "" || name == "*" || e.callNames[name] {
+		if name == "" || name == "*" {
+			return ""
+		}
+		// a function under contract that no longer exists under its name (renamed / removed): whoever anchors
+		// clauses at calls of it is stale as well, even if the short name still occurs elsewhere (a builtin)
+		for _, sc := range e.staleContracts {
+			short := sc.name
+			if i := strings.LastIndex(short, "."); i >= 0 {
+				short = short[i+1:]
+			}
+			if short == name {
+				return name
+			}
+		}
+		if e.callNames[name] {
 			return ""
 		}
 		return name
@@ -458,6 +476,17 @@ func (e *Engine) staleCallee(us *UnitSpec) string {
 	cs = append(cs, us.Ghost...)
 	cs = append(cs, us.Asserts...)
 	for _, c := range cs {
+		// channel anchors name an expression; a field in it that no struct of the repository has any more
+		// (renamed) makes the clause unmatchable
+		for _, pre := range []string{"send:", "recv:", "close:"} {
+			if strings.HasPrefix(c.Arg, pre) {
+				for _, m := range reSelName.FindAllStringSubmatch(c.Arg, -1) {
+					if !e.fieldNameSet()[m[1]] {
+						return "field " + m[1]
+					}
+				}
+			}
+		}
 		for _, pre := range []string{"after:", "before:", "call:"} {
 			if strings.HasPrefix(c.Arg, pre) {
 				if n := check(strings.TrimPrefix(c.Arg, pre)); n != "" {
@@ -533,4 +562,100 @@ func (e *Engine) hasVarBaseline() bool {
 		}
 	})
 	return e.varBase
+}
+
+var reSelName = regexp.MustCompile(`\.([A-Za-z_]\w*)`)
+
+// fieldNameSet: names of all struct fields and methods declared in or used by the repository packages.
+func (e *Engine) fieldNameSet() map[string]bool {
+	e.fieldOnce.Do(func() {
+		e.fieldNames = map[string]bool{}
+		for _, p := range e.pkgs {
+			for id, obj := range p.TypesInfo.Defs {
+				if v, ok := obj.(*types.Var); ok && v.IsField() {
+					e.fieldNames[id.Name] = true
+				}
+				if _, ok := obj.(*types.Func); ok {
+					e.fieldNames[id.Name] = true
+				}
+			}
+			for id, obj := range p.TypesInfo.Uses {
+				if v, ok := obj.(*types.Var); ok && v.IsField() {
+					e.fieldNames[id.Name] = true
+				}
+				if _, ok := obj.(*types.Func); ok {
+					e.fieldNames[id.Name] = true
+				}
+			}
+		}
+	})
+	return e.fieldNames
+}
+
+// staleChanAnchor: a send:/recv:/close: anchor names a channel expression such as r.done; when its base is a
+// parameter or the receiver of the function and a field along the path does not exist in that type any more
+// (renamed), the clause can never match: the contract is stale.
+func (e *Engine) staleChanAnchor(fn *types.Func, us *UnitSpec) string {
+	if us == nil || fn.Scope() == nil {
+		return ""
+	}
+	var cs []*Clause
+	cs = append(cs, us.Ghost...)
+	cs = append(cs, us.Asserts...)
+	for _, c := range cs {
+		for _, pre := range []string{"send:", "recv:", "close:"} {
+			if !strings.HasPrefix(c.Arg, pre) {
+				continue
+			}
+			txt := strings.TrimPrefix(c.Arg, pre)
+			txt = strings.TrimSuffix(txt, "()")
+			ex, err := parser.ParseExpr(txt)
+			if err != nil {
+				continue
+			}
+			// unwind the selector chain
+			var names []string
+			cur := ex
+			for {
+				if c2, ok := cur.(*ast.CallExpr); ok {
+					cur = c2.Fun
+					continue
+				}
+				if sel, ok := cur.(*ast.SelectorExpr); ok {
+					names = append([]string{sel.Sel.Name}, names...)
+					cur = sel.X
+					continue
+				}
+				break
+			}
+			id, ok := cur.(*ast.Ident)
+			if !ok || len(names) == 0 {
+				continue
+			}
+			obj := fn.Scope().Lookup(id.Name)
+			if obj == nil {
+				if r := e.renames(fn); r != nil {
+					if nw, has := r.old2new[id.Name]; has {
+						obj = fn.Scope().Lookup(nw)
+					}
+				}
+			}
+			v, ok := obj.(*types.Var)
+			if !ok {
+				continue // a local of the body, a captured variable: resolved (or found stale) when evaluated
+			}
+			t := v.Type()
+			for _, n := range names {
+				o, _, _ := types.LookupFieldOrMethod(t, true, fn.Pkg(), n)
+				if o == nil {
+					return fmt.Sprintf("%s has no field or method %s (anchor %s)", types.TypeString(t, nil), n, c.Arg)
+				}
+				t = o.Type()
+				if sg, ok := t.(*types.Signature); ok && sg.Results().Len() == 1 {
+					t = sg.Results().At(0).Type()
+				}
+			}
+		}
+	}
+	return ""
 }
